@@ -60,7 +60,7 @@ def obs_of(step):
 def run(tier):
     rep = vlib.Report("C17", tier)
     rng = random.Random(vlib.seed())
-    num, k = (60, 250) if tier == "quick" else (300, 120)
+    num, k = (60, 250) if tier == "quick" else (200, 120)
     cfg = f"SPECIFICATION Spec\nINVARIANT Emit\nCHECK_DEADLOCK FALSE\nCONSTANTS MaxRows = 4\n SampleK = {k}\n"
     g = vlib.tlc("GenCsv", cfg, "C17-gen", workers=1, timeout=900, args=["-simulate", f"num={num}", "-depth", "6", "-seed", str(vlib.seed())])
     if g.error:
